@@ -778,6 +778,33 @@ def _call_arg_sources(clos):
     return None
 
 
+def _only_asserted(f, b, loc):
+    """the bool local `loc` (possibly negated / copied once) steers only switches one arm of which panics"""
+    from .rules_guard import G
+    g = G(b, f)
+    alias = {loc}
+    for _ in range(3):
+        for bi, si, st in b.stmts():
+            if st["k"] == "assign" and not st["p"]["proj"]:
+                rv = st["rv"]
+                o = rv.get("o") if rv["k"] in ("use", "unary", "unop") else None
+                if o and o.get("k") in ("copy", "move") and not o["p"]["proj"] and o["p"]["local"] in alias:
+                    alias.add(st["p"]["local"])
+    used = False
+    for bi, bl in enumerate(b.blocks):
+        t = bl["term"]
+        if bl["cleanup"] or not t:
+            continue
+        if t["k"] == "switch" and t["discr"]["k"] in ("copy", "move") and t["discr"]["p"]["local"] in alias:
+            used = True
+            succs = [x[1] for x in t["targets"]] + [t["otherwise"]]
+            if not any(g.diverges(x) for x in succs):
+                return False
+        elif t["k"] == "assert" and t.get("cond", {}).get("k") in ("copy", "move") and t["cond"]["p"]["local"] in alias:
+            used = True
+    return used
+
+
 # ------------------------------------------------------------------------------------------ R-DUP / R-ZSTPTR
 DUPLICATING = ("core::ptr::read", "core::ptr::copy", "core::ptr::copy_nonoverlapping", "core::ptr::write", "core::ptr::read_unaligned",
                "core::ptr::read_volatile", "core::mem::transmute_copy", "core::ptr::write_bytes", "core::mem::zeroed", "core::mem::MaybeUninit::<T>::assume_init",
@@ -865,6 +892,8 @@ def r_zstptr(f):
                     if o["k"] in ("copy", "move"):
                         ty = b.locals[o["p"]["local"]] if not o["p"]["proj"] else ""
                         if re.match(r"^\*(mut|const) [A-Z][A-Za-z0-9]*/#\d+$", ty):
+                            if _only_asserted(f, b, st["p"]["local"]):
+                                break       # an assertion about the cursors, not a decision: for zero-sized T it simply holds
                             hits.append((st["rv"]["op"], st["span"]))
                             break
         for bi, t, fn in b.calls():
